@@ -50,9 +50,10 @@ class MeshLine1(MeshSimplex, Mesh):
         subdomains = None
         if self._subdomains is not None:
             # children of element k are the elements 2 * k and 2 * k + 1
+            kids = np.vstack((2 * np.arange(t.shape[1]),
+                              2 * np.arange(t.shape[1]) + 1))
             subdomains = {
-                name: np.sort(np.concatenate((2 * np.asarray(ixs),
-                                              2 * np.asarray(ixs) + 1)))
+                name: np.sort(kids[:, ixs].flatten())
                 for name, ixs in self._subdomains.items()
             }
 
